@@ -2,6 +2,7 @@ import Pyunicorn.Model.Proto
 import Pyunicorn.Model.Memo
 import Pyunicorn.Model.MemoNested
 import Pyunicorn.Model.MemoMode
+import Pyunicorn.Model.MemoOwned
 import Pyunicorn.Generated.StructC01
 /-! Line-protocol driver for C01. -/
 open Pyunicorn Pyunicorn.Proto Pyunicorn.Memo Pyunicorn.Generated
@@ -82,8 +83,26 @@ def runXHist (t : NTable) (ops : List XOp) : List String :=
 def mtableOf (name : String) : Option Mode.MTable :=
   (StructC01.allMTables.find? (·.1 == name)).map (·.2)
 
+/-- round 5: the table of the pair (owner class, owned component) and its parts -/
+def pairOf (c comp : String) : Option (NTable × NTable × OLink) :=
+  (StructC01.allOLinks.find? (fun p => p.1 == c && p.2.1 == comp)).map (·.2.2)
+
 def answer (toks : List String) : String :=
   match toks with
+  /- `<#owned methods>,<#owner mutators kept>,<nwf>,<apart>,<abstraction sound>` -/
+  | ["opair", c, comp] => match pairOf c comp with
+      | some (t, u, l) =>
+        let b := fun (x : Bool) => if x then "1" else "0"
+        s!"{u.methods.length},{(ownerMuts l u 0 t.mutators).length},{b (nwf (compose t u l))}," ++
+          s!"{b (l.apart t)},{b (abstractionSound t u l)}"
+      | none => "no-such-pair"
+  | ["onoffending", c, comp] => match pairOf c comp with
+      | some (t, u, l) => let o := noffending (compose t u l)
+          if o.isEmpty then "-" else join (o.map fun (a, b, d) => s!"{a}:{b}:{d}") ","
+      | none => "no-such-pair"
+  | ["onhist", c, comp, ops] => match pairOf c comp with
+      | some (t, u, l) => join (runXHist (compose t u l) ((splitTok ops ",").filterMap parseXOp)) ","
+      | none => "no-such-pair"
   | ["modewf", c] => match mtableOf c with
       | some t => if Mode.modeWf t then "1" else "0"
       | none => "no-such-class"
